@@ -197,6 +197,18 @@ class ImageBatch(DataTensor):
                 -args[0].ndim,
             ):
                 return [grids[0][int(i)] for i in index]
+        # Functions which may arbitrarily rearrange image data along the batch dimension
+        if func in (torch.gather, Tensor.gather):
+            if int(kwargs.get("dim", args[1] if len(args) > 1 else 0)) in (0, -args[0].ndim):
+                return None
+        if func in (torch.take_along_dim, Tensor.take_along_dim):
+            dim = kwargs.get("dim", args[2] if len(args) > 2 else None)
+            if dim is None or int(dim) in (0, -args[0].ndim):
+                return None
+        if func in (torch.rot90, Tensor.rot90):
+            dims = kwargs.get("dims", args[2] if len(args) > 2 else (0, 1))
+            if any(int(d) in (0, -args[0].ndim) for d in dims):
+                return None
         if func in (torch.narrow, Tensor.narrow):
             if len(args) > 3 and int(args[1]) in (0, -args[0].ndim):
                 start = int(args[2])
